@@ -174,6 +174,8 @@ def _call(fn):
         return lambda f: "K"
     if fn == "auto_seqid":
         return lambda f: "autoincrement:" + f.seqid
+    if fn == "auto_colon":
+        return lambda f: "autoincrement:%s:%s" % (f.seqid, f.featuretype)
     if fn == "name":
         return lambda f: f.attributes["Name"][0] if "Name" in f.attributes and f.attributes["Name"] else None
     if fn == "type_start":
